@@ -51,6 +51,7 @@ typedef struct KSock {
     int rst;                       /* connection reset */
     int sent_after_peer_close;
     int shut_rd, shut_wr, so_error;
+    int linger0;                   /* SO_LINGER {on, 0}: close is abortive (the peer sees a reset); inherited by accepted sockets as on Linux */
     int backlog, aq[8], naq;
     int dflt_port; int has_dflt;   /* datagram connect() */
     Dgram dq[DQ]; int ndq;
@@ -131,6 +132,7 @@ int __wrap_setsockopt(int fd, int level, int opt, const void *val, socklen_t len
     if (level != SOL_SOCKET) { errno = ENOPROTOOPT; return -1; }
     switch (opt) {
     case SO_KEEPALIVE: s->keepalive = !!v; return 0;
+    case SO_LINGER: if (len >= sizeof(struct linger)) { const struct linger *lg = val; s->linger0 = lg->l_onoff && lg->l_linger == 0; } return 0;
     case SO_REUSEADDR: s->reuseaddr = !!v; return 0;
 #ifdef SO_REUSEPORT
     case SO_REUSEPORT: s->reuseport = !!v; return 0;
@@ -226,6 +228,7 @@ int __wrap_connect(int fd, const struct sockaddr *a, socklen_t l)
     if (i == NSOCK) { errno = ECONNREFUSED; return -1; }
     srv = &S[i]; KZERO(srv, sizeof *srv);
     srv->state = S_CONNECTED; srv->family = ls->family; srv->type = SOCK_STREAM; srv->proto = ls->proto; srv->peer = (int)(s - S); srv->bound = 2; srv->port = ls->port; srv->local = ls->local; srv->locallen = ls->locallen; srv->keepalive = ls->keepalive; srv->sndbuf = ls->sndbuf; srv->rcvbuf = ls->rcvbuf;
+    srv->linger0 = ls->linger0;
     ls->aq[ls->naq++] = i;
     s->peer = i; s->state = S_CONNECTED;
     if (ksim_publish) { ksim_publish(ls, 4); ksim_publish(s, 4); }
@@ -353,7 +356,7 @@ int __wrap_close(int fd)
     KSock *s;
     if (!ksim_is_fd(fd)) return __real_close(fd);
     point(11, NULL); s = get(fd); if (!s) return -1;
-    if (s->type == SOCK_STREAM && s->state == S_CONNECTED && s->peer >= 0) { KSock *p = &S[s->peer]; if (p->state == S_CONNECTED) { p->peer_fin = 1; if (s->rxlen > 0) p->rst = 1; if (ksim_publish) ksim_publish(p, 11); } }
+    if (s->type == SOCK_STREAM && s->state == S_CONNECTED && s->peer >= 0) { KSock *p = &S[s->peer]; if (p->state == S_CONNECTED) { p->peer_fin = 1; if (s->rxlen > 0 || s->linger0) p->rst = 1; if (ksim_publish) ksim_publish(p, 11); } }
     if (s->state == S_LISTEN) { int i; for (i = 0; i < s->naq; i++) { KSock *q = &S[s->aq[i]]; if (q->peer >= 0) { S[q->peer].rst = 1; S[q->peer].peer_fin = 1; } q->state = S_FREE; } }
     s->state = S_CLOSED; s->rxlen = 0; s->ndq = 0;
     return 0;
